@@ -712,7 +712,11 @@ func init() {
 										continue
 									}
 									before := b.cookieHeader()
-									et.setRedisFault(map[string]string{cmd: "hang"})
+									hangKind := "hang"
+									if readTimeout != 0 && cmd == "DEL" {
+										hangKind = "hang-always" // the server stays silent however often the client asks again
+									}
+									et.setRedisFault(map[string]string{cmd: hangKind})
 									v := et.do(reqSpec{Target: et.opts.ProxyPrefix + "/sign_out", Cookie: before})
 									et.setRedisFault(nil)
 									r2 := et.do(reqSpec{Target: "/app/replay", Cookie: before})
@@ -723,6 +727,29 @@ func init() {
 											map[string]interface{}{"stalled_command": cmd, "status": v.Status, "location": v.Location, "read_timeout": cfgT.RedisReadTimeout.String()})
 										c.violation("C13", "a successful sign-out is reported while the stored session is still loadable (Redis timed out on "+cmd+")",
 											map[string]interface{}{"stalled_command": cmd, "status": v.Status})
+									}
+									et.mr.FlushAll()
+								}
+								if readTimeout != 0 {
+									// the same silence while a login SAVES its session, and while readiness is probed: no credential for a session
+									// that was never stored, no "ready" while the store does not answer
+									bs2 := newBrowser()
+									et.setRedisFault(map[string]string{"SET": "hang-always"})
+									lr := et.login(bs2, u, "/app/home")
+									et.setRedisFault(nil)
+									c.count("signout:redis-stall-save")
+									if ck := bs2.cookieHeader(); lr.OK || strings.Contains(ck, et.opts.Cookie.Name+"=") {
+										if r3 := et.do(reqSpec{Target: "/app/after-stalled-save", Cookie: ck}); len(r3.Hits) == 0 {
+											c.violation("C13", "a login whose session could not be written (Redis silent on SET, every attempt) still handed out a session cookie: the credential names a session that was never persisted",
+												map[string]interface{}{"login_ok": lr.OK, "cookie_header": truncate(ck, 200), "replay_status": r3.Status})
+										}
+									}
+									et.setRedisFault(map[string]string{"PING": "hang-always"})
+									rv := et.do(reqSpec{Target: "/ready"})
+									et.setRedisFault(nil)
+									c.count("signout:redis-stall-ready")
+									if rv.Status == 200 {
+										c.violation("C13", "the readiness endpoint answers 200 while the session store does not answer PING (every attempt times out)", map[string]interface{}{"status": rv.Status, "body": truncate(rv.Body, 100)})
 									}
 									et.mr.FlushAll()
 								}
